@@ -688,6 +688,12 @@ class VectorAwkward:
                 else ak.Array([x], behavior=self.behavior)
                 for x in result
             ]
+            if isinstance(self, ak.Record):
+                # extra (non-coordinate) fields are carried as length-1 columns too
+                self = ak.Array(
+                    self.layout.array[self.layout.at : self.layout.at + 1],
+                    behavior=self.behavior,
+                )
         else:
             maybe_record = _no_record
 
